@@ -16,6 +16,8 @@ COMPLETE_MUTANTS = ["breakonbad", "gt"]
 
 def owns(o):
     """C02 owns: enough valid authorized signers (Allowed = {accept}) but the code does not accept."""
+    if not o.get("must_ok", True):
+        return True      # a key the library's own signer was asked to sign with is not among the valid signers (independent oracle)
     return o["allowed"] == ["accept"] and o["observed"] != "accept"
 
 
